@@ -207,3 +207,23 @@ def purity_findings(ev: Event) -> List[Finding]:
         if e.mutated and e.op != "linprog":
             out.append(("mutated-operand:%s" % e.op, "%s modified its argument(s) %s" % (e.op, e.mutated), None))
     return out
+
+
+# ----------------------------------------------------------------------------------------------
+# equivalence with the properties' tolerance
+
+
+def equiv_tol(hyp_common: List[Any], left: List[Dict[str, Any]], right: List[Dict[str, Any]], names: List[str]):
+    """Is (common and left) equivalent to (common and right), each direction within tolerance?
+
+    Returns (status, direction, witness): status 'ok' | 'diff' | 'unknown'.
+    """
+    r1, w1 = X.check(X.box(names), *hyp_common, X.conj(left), X.anyviol(right))
+    if r1 == "sat":
+        return "diff", "left-does-not-imply-right", w1
+    r2, w2 = X.check(X.box(names), *hyp_common, X.conj(right), X.anyviol(left))
+    if r2 == "sat":
+        return "diff", "right-does-not-imply-left", w2
+    if "unknown" in (r1, r2):
+        return "unknown", None, None
+    return "ok", None, None
